@@ -2150,7 +2150,10 @@ class binary(base_quantizer.BaseQuantizer):  # pylint: disable=invalid-name
       # small, which occurs during initialization of weights.
       m = K.max(tf.abs(x), axis=axis, keepdims=True)
       m = tf.where(m > 1.0, tf.ones_like(m), m)
-      f = 2 * m
+      # f only sets the precision of the rounding: it must not carry a gradient,
+      # otherwise the largest element of each group receives the rounding
+      # residues of all the other elements.
+      f = tf.stop_gradient(2 * m)
 
       x = tf_utils.smart_cond(
           K.learning_phase(),
